@@ -110,6 +110,11 @@ def gen_case(rng, tier="quick"):
             fault["mode"] = "call"
             fault["n"] = int(round(10 ** rng.uniform(0, 3.5)))
         case["fault"] = fault
+    if rng.random() < 0.25:
+        # one exactly placed pre-emption (see simsched.DirectedSchedule)
+        case["directed"] = [rng.randrange(0, 40 + 25 * case["steps"]),
+                            rng.randrange(0, 30),
+                            _pick(rng, ["end", "update"])]
     case["sched"] = {
         "p_switch": _pick(rng, [0.0, 0.05, 0.2, 0.5, 0.8], [1, 2, 3, 3, 1]),
         "p_clock": _pick(rng, [0.0, 0.1, 0.3, 0.6], [1, 2, 3, 2]),
@@ -124,6 +129,10 @@ def shrink(case):
     out = []
     if case.get("calls", 1) > 1:
         c = dict(case); c["calls"] = 1; out.append(c)
+    if case.get("directed"):
+        i, j, v = case["directed"]
+        if v == "update":
+            out.append(dict(case, directed=[i, j, "end"]))
     if case["steps"] > 2:
         c = dict(case); c["steps"] = case["steps"] - 1
         if c.get("fault") and "k" in c["fault"]:
@@ -630,6 +639,8 @@ def run_case(case, dec):
     sc = case["sched"]
     sim = Sim(dec, p_switch=sc["p_switch"], p_clock=sc["p_clock"],
               jump_weights=sc["jw"])
+    if case.get("directed"):
+        sim.script = simsched.DirectedSchedule(*case["directed"])
     env = _install(sim)
     plan = models.FaultPlan()
     violations = []
@@ -688,6 +699,10 @@ def run_case(case, dec):
         "switches": sorted("|".join(s) for s in sim.switches),
         "pairs": sorted("|".join(p) for p in sim.pairs),
         "cb_exceptions": [list(x) for x in sim.cb_exceptions],
+        "directed_reached": list(sim.script.reached)
+        if sim.script is not None else None,
+        "directed_counts": [sim.script.main_count, sim.script.cb_count]
+        if sim.script is not None else None,
         "nontrivial": bool(sim.probes.get("timer_fired") or plan.fired
                            or sim.switches),
         "key": "%s/%s/%s/%s" % (case["api"], case["progress"],
@@ -799,7 +814,20 @@ def summarize(results):
     pairs = set()
     switches = set()
     apis = {}
+    grid = {}
     for r in results:
+        if r.get("enumerated"):
+            c = r.get("case", {})
+            key = "%s/%s/%s" % (c.get("api"), (c.get("fault") or {}).get(
+                "kind"), c.get("directed", [0, 0, "?"])[2])
+            g = grid.setdefault(key, {"cells": 0, "preempted": 0,
+                                      "main_points": 0, "callback_points": 0})
+            g["cells"] += 1
+            if r.get("directed_reached") == [True, True]:
+                g["preempted"] += 1
+            mc, cc = r.get("directed_counts") or [0, 0]
+            g["main_points"] = max(g["main_points"], mc)
+            g["callback_points"] = max(g["callback_points"], cc)
         pairs.update(r.get("pairs", []))
         switches.update(r.get("switches", []))
         c = r.get("case", {})
@@ -813,6 +841,13 @@ def summarize(results):
             "count": len(pairs),
             "switch_points": len(switches)},
         "api_progress_matrix": apis,
+        "directed_grid": {
+            "definition": "caller runs to its i-th line inside a progress "
+                          "method, one timer period passes, the callback runs "
+                          "to its j-th line, the caller runs to the end of the "
+                          "call (variant end) or to its next progress method "
+                          "(variant update), the callback resumes",
+            "per_scenario": grid},
     }
 
 
@@ -823,3 +858,36 @@ def static_checks(tier, seed):
     src = os.environ.get("OQUPY_SRC", "/repo")
     violations, report = fidelity.real_timer_cases(src)
     return {"violations": violations, "report": {"real_timer_runs": report}}
+
+
+# ---------------------------------------------------------------------------
+# the finite grid of the property text, enumerated: caller position x
+# pre-emption point of the callback, for canonical scenarios
+
+GRID_SCENARIOS = [
+    {"api": "compute_dynamics", "progress": None, "steps": 2, "pt": "z",
+     "npts": 1, "calls": 1, "fault": None},
+    {"api": "compute_dynamics", "progress": "bar", "steps": 2, "pt": "z",
+     "npts": 1, "calls": 1,
+     "fault": {"kind": "hamiltonian", "mode": "step", "k": 1}},
+    {"api": "tempo", "progress": None, "steps": 2, "pt": "z", "npts": 1,
+     "calls": 1, "fault": None, "shortcut": False},
+    {"api": "gradient", "progress": None, "steps": 2, "pt": "z", "npts": 1,
+     "calls": 1, "fault": None, "target_callable": False},
+]
+GRID_MAIN = 160     # upper bounds; cells beyond the real extent are no-ops
+GRID_CB = 30
+
+
+def enumerated_cases(tier):
+    si, sj = (5, 3) if tier == "quick" else (1, 1)
+    scenarios = GRID_SCENARIOS[:2] if tier == "quick" else GRID_SCENARIOS
+    sched = {"p_switch": 0.0, "p_clock": 0.0, "jw": [0, 1, 1, 1, 1, 1]}
+    out = []
+    for sc in scenarios:
+        for variant in ("end", "update"):
+            for i in range(0, GRID_MAIN, si):
+                for j in range(0, GRID_CB, sj):
+                    out.append(dict(sc, sched=sched,
+                                    directed=[i, j, variant]))
+    return out
